@@ -34,7 +34,7 @@ def run(ctx):
             Wf = lambda t: np.asarray(f.k_space(np.exp(t)), float)
             num = (-Wf(s + 2 * h) + 8 * Wf(s + h) - 8 * Wf(s - h) + Wf(s - 2 * h)) / (12 * h)     # 4th-order stencil
             ana = np.asarray(f.dw_dlnkr(np.exp(s)), float)
-            big = np.abs(ana) > 1e-9
+            big = (np.abs(ana) > 1e-9) | (np.abs(num) > 1e-7)
             ncase += len(s)
             if not np.allclose(num[big], ana[big], rtol=1e-4, atol=1e-8):
                 i = int(np.argmax(np.abs(num - ana)))
